@@ -1,15 +1,425 @@
 /-
   C13 — An update run stores each updater's parse result exactly once.
-  (placeholder while the pipeline is brought up; theorems follow)
+
+  Property theorems only; the machine is Model/Manager.lean (Manager.Run and
+  Manager.driveUpdater of libvuln/updates/manager.go over the lock machine of
+  C20), the invariants are in Proofs/Manager.lean.  Every theorem about
+  `reach env hist evs` holds for EVERY event sequence `evs` — every schedule of
+  any number of concurrent runs sharing one lock source and one store, every
+  cancellation moment, every fault script in `env`, every prior history
+  `hist` — because events the code cannot perform in a state leave the state
+  unchanged.  The machine is tied to the Go code by the trace correspondence
+  of `./check C13`: every hook point, lock operation, store call and updater
+  call of the real manager is one event, answered identically by the machine.
 -/
-import ClairModel.Model.Manager
+import ClairModel.Proofs.Manager
 
 namespace ClairModel.Props.C13
 open ClairModel ClairModel.Manager
 
-/-- A disabled event leaves the machine where it was. -/
+/-- The state after the events `evs`, starting with the store history `hist`. -/
+abbrev reach (env : Env) (hist : List Op) (evs : List Ev) : State :=
+  Sm.run (step env) (init hist) evs
+
+/-! ### driveUpdater on its own -/
+
+/-- driveUpdater stores **iff** GetUpdateOperations, Fetch (not Unchanged),
+    Parse and the store call all succeeded; the call then carries the
+    fingerprint Fetch returned and the parser's complete result. -/
+theorem drive_stores_iff (u : Upd) (prev : Fp) (d0 d1 d2 d3 : Bool) (c : Call) :
+    (drive u prev d0 d1 d2 d3).1 = .stored c ↔
+      u.getOk d0 = true ∧ ∃ fp p, u.fetch prev d1 = (.ok, fp) ∧ u.parse d2 = some p ∧
+        u.storeOk d3 = true ∧ c = mkCall u fp p := by
+  unfold drive
+  cases h0 : u.getOk d0
+  · simp
+  · simp only [if_true, true_and]
+    rcases hf : u.fetch prev d1 with ⟨res, fp⟩
+    cases res
+    · cases hp : u.parse d2 with
+      | none => simp
+      | some p =>
+        cases h3 : u.storeOk d3
+        · simp
+        · simp only [if_true, Res.stored.injEq]
+          constructor
+          · intro h; exact ⟨fp, p, rfl, rfl, trivial, h.symm⟩
+          · rintro ⟨fp', p', h1, h2, _, h4⟩
+            cases h1; cases h2; exact h4.symm
+    · simp
+    · simp
+
+/-- The stored call is made under the updater's own name, with the new
+    fingerprint, by the method of the updater's kind, and with everything the
+    parser returned (for a delta updater: vulnerabilities and deletions). -/
+theorem stored_call_complete (u : Upd) (fp : Fp) (p : Payload) :
+    (mkCall u fp p).name = u.name ∧ (mkCall u fp p).fp = fp ∧
+    (mkCall u fp p).toOp = ⟨u.name, u.kind.uo, fp⟩ ∧
+    (u.kind = .plain → mkCall u fp p = .vulns u.name fp p.vulns) ∧
+    (u.kind = .delta → mkCall u fp p = .delta u.name fp p.vulns p.deleted) ∧
+    (u.kind = .enrich → mkCall u fp p = .enrich u.name fp p.vulns) := by
+  refine ⟨mkCall_name u fp p, mkCall_fp u fp p, mkCall_toOp u fp p, ?_, ?_, ?_⟩ <;>
+    intro hk <;> simp [mkCall, hk]
+
+/-- An unchanged source is not an error and stores nothing. -/
+theorem drive_unchanged (u : Upd) (prev fp : Fp) (d0 d1 d2 d3 : Bool) (h0 : u.getOk d0 = true)
+    (hf : u.fetch prev d1 = (.unchanged, fp)) :
+    drive u prev d0 d1 d2 d3 = (.unchanged, fp) ∧ Res.failed .unchanged = false := by
+  simp [drive, h0, hf, Res.failed]
+
+/-- driveUpdater returns an error exactly when one of its steps failed. -/
+theorem drive_failed_iff (u : Upd) (prev : Fp) (d0 d1 d2 d3 : Bool) :
+    (drive u prev d0 d1 d2 d3).1.failed = true ↔
+      u.getOk d0 = false ∨ (u.fetch prev d1).1 = .err ∨
+      ((u.fetch prev d1).1 = .ok ∧ (u.parse d2 = none ∨ u.storeOk d3 = false)) := by
+  unfold drive
+  cases h0 : u.getOk d0
+  · simp [Res.failed]
+  · simp only [if_true]
+    rcases hf : u.fetch prev d1 with ⟨res, fp⟩
+    cases res
+    · cases hp : u.parse d2 with
+      | none => simp [Res.failed]
+      | some p => cases h3 : u.storeOk d3 <;> simp [Res.failed]
+    · simp [Res.failed]
+    · simp [Res.failed]
+
+/-! ### every worker of every run, under every schedule -/
+
+/-- What a finished worker did is an instance of the sequential driveUpdater
+    of its own updater: its outcome depends on that updater's script, the
+    fingerprint it read and the cancellation of its own context — on no other
+    updater. -/
+theorem worker_result_is_drive (env : Env) (hist : List Op) (evs : List Ev) (r i : Nat) (res : Res)
+    (h : (reach env hist evs).pc r i = .finished (some res)) :
+    ∃ prev d0 d1 d2 d3, (drive (env.upd i) prev d0 d1 d2 d3).1 = res := by
+  have := (inv_run env hist evs).d.expl r i
+  rw [h] at this
+  exact this
+
+/-- Exactly once: a worker makes at most one successful store call; it makes
+    one iff its driveUpdater ended in `stored c`, and that call is `c`;
+    a failed, unchanged or skipped worker stored nothing. -/
+theorem stores_exactly_once (env : Env) (hist : List Op) (evs : List Ev) (r i : Nat) :
+    (callsOf (reach env hist evs) r i).length ≤ 1 ∧
+    (∀ c, (reach env hist evs).pc r i = .finished (some (.stored c)) → callsOf (reach env hist evs) r i = [c]) ∧
+    (∀ res, (reach env hist evs).pc r i = .finished (some res) → (∀ c, res ≠ .stored c) →
+        callsOf (reach env hist evs) r i = []) ∧
+    ((reach env hist evs).pc r i = .finished none → callsOf (reach env hist evs) r i = []) ∧
+    ((reach env hist evs).pc r i = .idle → callsOf (reach env hist evs) r i = []) := by
+  have hc := (inv_run env hist evs).d.calls r i
+  refine ⟨?_, ?_, ?_, ?_, ?_⟩
+  · rw [hc]
+    generalize (reach env hist evs).pc r i = p
+    cases p with
+    | finishing g fp res => cases res <;> simp [pcCalls]
+    | recorded g res => cases res <;> simp [pcCalls]
+    | finished res =>
+      cases res with
+      | none => simp [pcCalls]
+      | some res => cases res <;> simp [pcCalls]
+    | _ => simp [pcCalls]
+  · intro c h; rw [hc, h]; rfl
+  · intro res h hne; rw [hc, h]
+    cases res with
+    | stored c => exact absurd rfl (hne c)
+    | _ => rfl
+  · intro h; rw [hc, h]; rfl
+  · intro h; rw [hc, h]; rfl
+
+/-- The stored call of a worker is its updater's: own name, the fingerprint
+    its Fetch returned with a changed source, the complete result of its
+    parser. -/
+theorem stored_call_is_own (env : Env) (hist : List Op) (evs : List Ev) (r i : Nat) (c : Call)
+    (h : (reach env hist evs).pc r i = .finished (some (.stored c))) :
+    ∃ prev d1 d2 fp p, (env.upd i).fetch prev d1 = (.ok, fp) ∧ (env.upd i).parse d2 = some p ∧
+      c = mkCall (env.upd i) fp p ∧ c.name = (env.upd i).name ∧ c.fp = fp := by
+  obtain ⟨prev, d0, d1, d2, d3, hd⟩ := worker_result_is_drive env hist evs r i _ h
+  obtain ⟨_, fp, p, hf, hp, _, hc⟩ := (drive_stores_iff _ _ _ _ _ _ _).1 hd
+  exact ⟨prev, d1, d2, fp, p, hf, hp, hc, by rw [hc, mkCall_name], by rw [hc, mkCall_fp]⟩
+
+/-- The store holds exactly the operations of the successful calls on top of
+    the prior history: nothing else is ever written by a run. -/
+theorem store_is_history_plus_calls (env : Env) (hist : List Op) (evs : List Ev) :
+    (reach env hist evs).ops = (reach env hist evs).calls.map (fun c => c.call.toOp) ++ hist :=
+  (inv_run env hist evs).d.ops
+
+/-! ### the fingerprint handed to Fetch -/
+
+/-- `latestFp` is the fingerprint of the newest operation of that updater and
+    kind, whatever else the history contains; the empty fingerprint if there
+    is none. -/
+theorem latestFp_spec (uo : UoKind) (name : Nat) :
+    (∀ ops : List Op, (∀ o ∈ ops, ¬(o.name = name ∧ o.uo = uo)) → latestFp ops uo name = 0) ∧
+    (∀ (pre post : List Op) (o : Op), (∀ x ∈ pre, ¬(x.name = name ∧ x.uo = uo)) → o.name = name → o.uo = uo →
+        latestFp (pre ++ o :: post) uo name = o.fp) := by
+  constructor
+  · intro ops h
+    have : ops.find? (fun o => o.name == name && o.uo == uo) = none := by
+      apply List.find?_eq_none.2
+      intro o ho; simpa using h o ho
+    simp [latestFp, this]
+  · intro pre post o hpre hn hu
+    induction pre with
+    | nil => simp [latestFp, hn, hu]
+    | cons x xs ih =>
+      have hx := hpre x List.mem_cons_self
+      have : (x.name == name && x.uo == uo) = false := by
+        cases h1 : (x.name == name) <;> cases h2 : (x.uo == uo) <;> simp_all
+      have ih' := ih (fun y hy => hpre y (List.mem_cons_of_mem _ hy))
+      simp only [latestFp, List.cons_append, List.find?_cons, this] at ih' ⊢
+      exact ih'
+
+/-- Every updater is fetched with the fingerprint of its latest stored
+    operation **at the moment of the fetch** — for any prior history and any
+    interleaving with other workers and runs: between reading the fingerprint
+    and fetching, no operation of that name can be stored (mutual exclusion). -/
+theorem fetch_gets_latest_fp (env : Env) (hist : List Op) (evs : List Ev) (r i g : Nat) (prev : Fp)
+    (h : (reach env hist evs).pc r i = .gotOps g prev) :
+    prev = latestFp (reach env hist evs).ops (env.upd i).kind.uo (env.upd i).name ∧
+    ∃ res fp, (step env (reach env hist evs) (.fetch r i)).2 =
+      .fetch ((env.upd i).kind == .enrich)
+        (latestFp (reach env hist evs).ops (env.upd i).kind.uo (env.upd i).name) res fp := by
+  have hp := (inv_run env hist evs).d.prev r i g prev h
+  refine ⟨hp, ?_⟩
+  simp only [step, h]
+  rw [← hp]
+  split <;> exact ⟨_, _, rfl⟩
+
+/-! ### mutual exclusion, isolation -/
+
+/-- Two workers whose updaters have the same name never hold the lock (in
+    particular: are never inside driveUpdater) at the same time — within one
+    run and across concurrent runs sharing the lock source. -/
+theorem same_name_exclusive (env : Env) (hist : List Op) (evs : List Ev) (r i r' i' g g' : Nat)
+    (h1 : ((reach env hist evs).pc r i).holds = some g)
+    (h2 : ((reach env hist evs).pc r' i').holds = some g')
+    (hn : (env.upd i).name = (env.upd i').name) : r = r' ∧ i = i' :=
+  exclusive (inv_run env hist evs).l h1 h2 hn
+
+/-- A worker inside driveUpdater holds the lock on its updater's name. -/
+theorem running_holds_lock (env : Env) (hist : List Op) (evs : List Ev) (r i : Nat)
+    (h : ((reach env hist evs).pc r i).running = true) :
+    ∃ g, ((reach env hist evs).pc r i).holds = some g ∧
+      (⟨g, (env.upd i).name, r⟩ : Locks.Grant) ∈ (reach env hist evs).locks.active ∧
+      (env.upd i).name ∈ (reach env hist evs).locks.held := by
+  have hl : InvL env (reach env hist evs) := (inv_run env hist evs).l
+  generalize reach env hist evs = s at h hl ⊢
+  have hh : ∃ g, (s.pc r i).holds = some g := by
+    generalize s.pc r i = p at h
+    cases p <;> simp [Pc.running] at h <;> exact ⟨_, rfl⟩
+  obtain ⟨g, hg⟩ := hh
+  have hm := hl.grant r i g hg
+  exact ⟨g, hg, hm, (hl.locks.heldIff _).2 (List.mem_map.2 ⟨_, hm, rfl⟩)⟩
+
+/-- One worker's step — failing or not — leaves every other worker's program
+    state and recorded store calls untouched. -/
+theorem other_workers_untouched (env : Env) (s : State) (ev : Ev) (r i : Nat) (h : ev.worker ≠ some (r, i)) :
+    (step env s ev).1.pc r i = s.pc r i ∧ callsOf (step env s ev).1 r i = callsOf s r i :=
+  ⟨pc_frame env s ev r i h, calls_frame env s ev r i h⟩
+
+/-- A failure does not stop the run from launching the remaining updaters:
+    whether `launch` is enabled depends on the loop position and the
+    semaphore only. -/
+theorem launch_enabled_iff (env : Env) (s : State) (r : Nat) :
+    (step env s (.launch r)).2 = .ok ↔
+      (s.run r).pc = .acquiring true ∧ (s.run r).inflight < env.batch r := by
+  simp only [step]
+  split
+  · rename_i hpc
+    split
+    · rename_i hlt; simp [hpc, hlt]
+    · rename_i hlt; simp [hlt]
+  · rename_i hne
+    constructor
+    · intro h; cases h
+    · intro h; exact absurd h.1 (hne)
+
+/-- An updater whose name is free and whose run is not cancelled is driven. -/
+theorem free_name_is_driven (env : Env) (s : State) (r i : Nat) (hidle : s.pc r i = .idle)
+    (hin : i ∈ env.toRun r) (hl : (s.run r).tried.length < (s.run r).launchedN)
+    (hfree : (env.upd i).name ∉ s.locks.held) (hlive : dead s r = false) :
+    (step env s (.tryLock r i)).2 = .lock true true ∧
+    (step env s (.tryLock r i)).1.pc r i = .locked s.locks.issued := by
+  simp [step, hidle, hin, hl, hfree, hlive]
+
+/-! ### the returned error, waiting, parallelism, cancellation -/
+
+/-- `Run` returns the instances whose driveUpdater failed — all of them and
+    only them: every started worker has finished by then. -/
+theorem error_names_failed (env : Env) (hist : List Op) (evs : List Ev) (r : Nat)
+    (hd : ((reach env hist evs).run r).pc = .drained) :
+    (step env (reach env hist evs) (.ret r)).2 = .ret ((reach env hist evs).run r).errs ∧
+    (∀ i, i ∈ ((reach env hist evs).run r).errs ↔
+        ∃ res, (reach env hist evs).pc r i = .finished (some res) ∧ res.failed = true) ∧
+    (∀ i, (reach env hist evs).pc r i = .idle ∨ ((reach env hist evs).pc r i).isFinished = true) := by
+  have hr : InvR env (reach env hist evs) := (inv_run env hist evs).r
+  generalize reach env hist evs = s at hd hr ⊢
+  refine ⟨by simp [step, hd], hr.errs r, ?_⟩
+  intro i
+  have hq := hr.quiet r (by rw [hd]; rfl)
+  have hc := hr.count r
+  by_cases hi : i ∈ (s.run r).tried
+  · right
+    exact all_finished_of_unfinished_zero (by omega) i hi
+  · left; exact (hr.idle r i).2 hi
+
+/-- `Run` returns only from the state reached after the final semaphore
+    acquisition. -/
 theorem ret_needs_drained (env : Env) (s : State) (r : Nat) (h : (s.run r).pc ≠ .drained) :
     step env s (.ret r) = (s, .bad) := by
   cases hp : (s.run r).pc <;> simp_all [step]
+
+/-- The run returns only after every started updater has finished: once the
+    final wait is over (and for ever after) every launched goroutine has
+    reached TryLock, has finished, and holds no semaphore token. -/
+theorem run_waits_for_all (env : Env) (hist : List Op) (evs : List Ev) (r : Nat)
+    (hd : ((reach env hist evs).run r).pc.isDrained = true) :
+    ((reach env hist evs).run r).inflight = 0 ∧
+    ((reach env hist evs).run r).tried.length = ((reach env hist evs).run r).launchedN ∧
+    ∀ i, (reach env hist evs).pc r i = .idle ∨ ((reach env hist evs).pc r i).isFinished = true := by
+  have hr : InvR env (reach env hist evs) := (inv_run env hist evs).r
+  generalize reach env hist evs = s at hd hr ⊢
+  have hq := hr.quiet r hd
+  have hc := hr.count r
+  have hl := hr.triedLe r
+  refine ⟨hq, by omega, ?_⟩
+  intro i
+  by_cases hi : i ∈ (s.run r).tried
+  · right; exact all_finished_of_unfinished_zero (by omega) i hi
+  · left; exact (hr.idle r i).2 hi
+
+/-- A finished worker never moves again: no store call of a run is made after
+    the run has returned. -/
+theorem finished_is_final (env : Env) (s : State) (ev : Ev) (r i : Nat) (res : Option Res)
+    (h : s.pc r i = .finished res) : (step env s ev).1.pc r i = .finished res := by
+  by_cases hw : ev.worker = some (r, i)
+  · cases ev <;> simp [Ev.worker] at hw <;> obtain ⟨rfl, rfl⟩ := hw <;> simp [step, h]
+  · rw [pc_frame env s ev r i hw, h]
+
+/-- At most `batchSize` updaters of a run are in flight. -/
+theorem bounded_parallelism (env : Env) (hist : List Op) (evs : List Ev) (r : Nat) :
+    unfinished (reach env hist evs) r ≤ ((reach env hist evs).run r).inflight ∧
+    ((reach env hist evs).run r).inflight ≤ env.batch r := by
+  have hr : InvR env (reach env hist evs) := (inv_run env hist evs).r
+  have := hr.count r
+  exact ⟨by omega, hr.batch r⟩
+
+/-- After the context of a run is cancelled no new worker is launched, except
+    possibly the one whose semaphore acquisition was already in progress: from
+    any state in which the run is cancelled and no acquisition is in progress
+    with a live context, the number of launched workers never changes again. -/
+theorem cancel_stops_launching (env : Env) (s : State) (r : Nat) (hd : dead s r = true)
+    (hp : (s.run r).pc ≠ .acquiring true) (evs : List Ev) :
+    ((Sm.run (step env) s evs).run r).launchedN = (s.run r).launchedN := by
+  induction evs generalizing s with
+  | nil => rfl
+  | cons ev evs ih =>
+    have h1 := cancelled_step env s ev r hd hp
+    rw [Sm.run_cons, ih _ (dead_step env s ev r hd) h1.1, h1.2]
+
+/-- …and the acquisition that was in progress can succeed at most once:
+    from any state in which the run is cancelled, at most one more worker is
+    ever launched. -/
+theorem at_most_one_launch_after_cancel (env : Env) (s : State) (r : Nat) (hd : dead s r = true)
+    (evs : List Ev) :
+    ((Sm.run (step env) s evs).run r).launchedN ≤ (s.run r).launchedN + 1 := by
+  have key : ∀ (evs : List Ev) (s : State), dead s r = true →
+      budget (Sm.run (step env) s evs) r ≤ budget s r := by
+    intro evs
+    induction evs with
+    | nil => intro s _; exact Nat.le_refl _
+    | cons ev evs ih =>
+      intro s hd
+      rw [Sm.run_cons]
+      exact Nat.le_trans (ih _ (dead_step env s ev r hd)) (budget_step env s ev r hd)
+  have := key evs s hd
+  simp only [budget] at this
+  split at this <;> split at this <;> omega
+
+/-- Every configured updater is run: when the run was not cancelled, by the
+    time the final wait is over every member of `toRun` has had its worker,
+    and that worker has finished. -/
+theorem all_configured_run (env : Env) (hist : List Op) (evs : List Ev) (r : Nat)
+    (hd : ((reach env hist evs).run r).pc.isDrained = true) (hlive : dead (reach env hist evs) r = false) :
+    ∀ i ∈ env.toRun r, ((reach env hist evs).pc r i).isFinished = true := by
+  have hr : InvR env (reach env hist evs) := (inv_run env hist evs).r
+  generalize reach env hist evs = s at hd hlive hr ⊢
+  have hq := hr.quiet r hd
+  have hc := hr.count r
+  have hl := hr.triedLe r
+  have hall : (s.run r).launchedN = (env.toRun r).length := by
+    have hlo : (s.run r).pc.loopOver = true := by
+      cases hp : (s.run r).pc <;> rw [hp] at hd <;> simp_all [RunPc.isDrained, RunPc.loopOver]
+    rcases hr.all r hlo with h | h
+    · exact h
+    · rw [hlive] at h; cases h
+  intro i hi
+  have hin : i ∈ (s.run r).tried :=
+    subset_of_nodup_length_le _ _ (hr.nodup r) (hr.sub r) (by omega) i hi
+  exact all_finished_of_unfinished_zero (by omega) i hin
+
+/-- Only configured updaters are run, each at most once per run. -/
+theorem only_configured_run (env : Env) (hist : List Op) (evs : List Ev) (r i : Nat)
+    (h : (reach env hist evs).pc r i ≠ .idle) : i ∈ env.toRun r := by
+  have hr : InvR env (reach env hist evs) := (inv_run env hist evs).r
+  apply hr.sub r i
+  exact Decidable.byContradiction fun hn => h ((hr.idle r i).2 hn)
+
+/-! ### from factories to the updaters of a run -/
+
+/-- The updaters of a run are the members of the factories that could be
+    constructed and are not the stub set, whose Configure did not fail. -/
+theorem plan_mem (name : Nat → Nat) (cfgOk : Nat → Bool) (facs : List Fac) (i : Nat) :
+    i ∈ plan name cfgOk facs ↔
+      ∃ f ∈ facs, f.ok = true ∧ isStub name f = false ∧ i ∈ f.members ∧ cfgOk i = true := by
+  simp only [plan, List.mem_filter, List.mem_flatMap, Bool.and_eq_true, Bool.not_eq_true']
+  constructor
+  · rintro ⟨⟨f, ⟨hf, hok, hst⟩, hm⟩, hc⟩; exact ⟨f, hf, hok, hst, hm, hc⟩
+  · rintro ⟨f, hf, hok, hst, hm, hc⟩; exact ⟨⟨f, ⟨hf, hok, hst⟩, hm⟩, hc⟩
+
+/-! ### statements the code does not satisfy at full strength -/
+
+/-- "Every configured updater is fetched" is false when two configured
+    updaters share a name (possible across factories): the second one finds
+    the lock taken and is skipped without being fetched and without an error.
+    That is the price of `same_name_exclusive`; `free_name_is_driven` is the
+    statement that does hold. -/
+theorem same_name_second_skipped_counterexample :
+    let u : Upd := { name := 7, kind := .plain, getOk := fun _ => true, fetch := fun _ _ => (.ok, 1),
+                     parse := fun _ => some ⟨[1], []⟩, storeOk := fun _ => true }
+    let env : Env := { upd := fun _ => u, batch := fun _ => 2, toRun := fun _ => [0, 1], stubSets := fun _ => 0 }
+    let evs : List Ev := [.begin 0, .acquire 0, .launch 0, .acquire 0, .launch 0, .tryLock 0 0, .tryLock 0 1,
+      .done 0 1, .getOps 0 0, .fetch 0 0, .parse 0 0, .store 0 0, .status 0 0, .done 0 0, .wait 0, .drained 0, .ret 0]
+    (reach env [] evs).pc 0 1 = .finished none ∧ (reach env [] evs).pc 0 0 = .finished (some (.stored (.vulns 7 1 [1]))) ∧
+    ((reach env [] evs).run 0).pc = .returned ∧ ((reach env [] evs).run 0).errs = [] := by
+  decide
+
+/-- A cancelled run returns no error for the updaters it never started:
+    `Run` reports failures of driveUpdater only. -/
+theorem cancelled_run_returns_nil_counterexample :
+    let u : Upd := { name := 7, kind := .plain, getOk := fun _ => true, fetch := fun _ _ => (.ok, 1),
+                     parse := fun _ => some ⟨[1], []⟩, storeOk := fun _ => true }
+    let env : Env := { upd := fun _ => u, batch := fun _ => 2, toRun := fun _ => [0, 1], stubSets := fun _ => 0 }
+    let evs : List Ev := [.cancel 0, .begin 0, .acquire 0, .wait 0, .drained 0]
+    (step env (reach env [] evs) (.ret 0)).2 = .ret [] ∧ (reach env [] evs).pc 0 0 = .idle := by
+  decide
+
+/-- Non-vacuity of the hypotheses used above: a run with a failing and a
+    healthy updater reaches `drained`, names exactly the failing one, and the
+    healthy one's result is in the store. -/
+example :
+    let good : Upd := { name := 2, kind := .delta, getOk := fun _ => true, fetch := fun _ _ => (.ok, 5),
+                        parse := fun _ => some ⟨[1, 2], [3]⟩, storeOk := fun _ => true }
+    let bad : Upd := { good with name := 3, parse := fun _ => none }
+    let env : Env := { upd := fun i => if i = 0 then good else bad, batch := fun _ => 1,
+                       toRun := fun _ => [0, 1], stubSets := fun _ => 0 }
+    let evs : List Ev := [.begin 0, .acquire 0, .launch 0, .tryLock 0 1, .getOps 0 1, .fetch 0 1, .parse 0 1,
+      .status 0 1, .done 0 1, .acquire 0, .launch 0, .tryLock 0 0, .getOps 0 0, .fetch 0 0, .parse 0 0, .store 0 0,
+      .status 0 0, .done 0 0, .wait 0, .drained 0]
+    ((reach env [⟨2, .vuln, 4⟩] evs).run 0).pc = .drained ∧ ((reach env [⟨2, .vuln, 4⟩] evs).run 0).errs = [1] ∧
+    (reach env [⟨2, .vuln, 4⟩] evs).ops = [⟨2, .vuln, 5⟩, ⟨2, .vuln, 4⟩] ∧
+    callsOf (reach env [⟨2, .vuln, 4⟩] evs) 0 0 = [.delta 2 5 [1, 2] [3]] := by
+  decide
 
 end ClairModel.Props.C13
